@@ -30,8 +30,12 @@ PrefixSets ==
     ps2 |-> {E(2, 2, 2, 2)},                    \* exact match only
     ps3 |-> {E(0, 0, 1, 2)},                    \* covers the whole W-bit space, lengths 1..2
     ps4 |-> {E(2, 0, 1, 3)},                    \* range reaching BELOW the entry's own length
-    ps5 |-> {E(1, 1, 1, 1), E(2, 2, 2, 3), E(3, 7, 3, 3)} ]   \* three nested entries
-PsNames == {"ps1", "ps2", "ps3", "ps4", "ps5"}
+    ps5 |-> {E(1, 1, 1, 1), E(2, 2, 2, 3), E(3, 7, 3, 3)},    \* three nested entries
+    \* an entry for the whole space (at bit offset 0: the default route 0.0.0.0/0 or ::/0) whose range excludes most
+    \* routes, next to entries that cover them: every entry counts, not only the shortest
+    ps6 |-> {E(0, 0, 0, 0), E(1, 1, 2, 3)},
+    ps7 |-> {E(0, 0, 3, 3), E(2, 1, 2, 2)} ]
+PsNames == {"ps1", "ps2", "ps3", "ps4", "ps5", "ps6", "ps7"}
 
 PrefixSetMatch(name, p) == \E e \in PrefixSets[name] : Covers([len |-> e.len, val |-> e.val], p) /\ e.min <= p.len /\ p.len <= e.max
 
